@@ -612,9 +612,74 @@ theorem reader_steps_linear_ascii_faces (L : Lex) (f : FaceHdr) (ls : List Line)
     (asciiFacesI L f ls n).1 = asciiFaces L f ls n ∧ (asciiFacesI L f ls n).2 ≤ ls.length + 1 :=
   ⟨asciiFacesI_fst L f ls n, asciiFacesI_steps L f ls n⟩
 
-theorem reader_steps_linear_pts (L : Lex) (ls : List Line) (n : Nat) (o : Option Nat) :
+theorem reader_steps_linear_pts_loop (L : Lex) (ls : List Line) (n : Nat) (o : Option Nat) :
     (ptsLoopI L ls n o).1 = ptsLoop L ls n o ∧ (ptsLoopI L ls n o).2 ≤ ls.length + 1 :=
   ⟨ptsLoopI_fst L ls n o, ptsLoopI_steps L ls n o⟩
+
+/-! ### one assembled statement per format: the WHOLE read (PLY: header scan aside)
+
+  `readXI` runs the instrumented loops exactly as `readX` runs the plain ones; every statement says that its
+  first component is the reader's result and bounds its second component — the total number of loop iterations
+  (reads, records, faces, list reads, bytes scanned, bytes split into fields, lines, list readers per line) —
+  linearly in the number of input bytes, for ALL inputs (valid, cut or garbage).  Not counted: the validation of
+  a token's number syntax (`goFloatOk`/`goInt?`: structural recursions over the token's bytes). -/
+
+theorem reader_steps_linear_stl (bs : List UInt8) :
+    (readStlI bs).1 = readStl bs ∧ (readStlI bs).2 ≤ bs.length + 3 :=
+  ⟨readStlI_fst bs, readStlI_bound bs⟩
+
+/-- SPZ (decompressed stream): one header read and at most six array reads whatever the header says; and when the
+    read succeeds the announced payload is present, so the dequantisation loops (five of `numPoints` iterations,
+    `shDim` of `numPoints` iterations) are bounded by the number of bytes -/
+theorem reader_steps_linear_spz (bs : List UInt8) :
+    (readArraysI (arraySizes (parseHeader (bs.take 16))) (bs.drop 16)).1 =
+        readArrays (arraySizes (parseHeader (bs.take 16))) (bs.drop 16) ∧
+    (readArraysI (arraySizes (parseHeader (bs.take 16))) (bs.drop 16)).2 ≤ 6 ∧
+    ∀ a, readRaw bs = .ok a → payloadLength a.header ≤ bs.length ∧
+      a.header.numPoints * (5 + shDim a.header.shDegree) ≤ bs.length := by
+  refine ⟨readArraysI_fst _ _, by simpa [arraySizes] using readArraysI_steps_le_length (arraySizes (parseHeader (bs.take 16))) (bs.drop 16), ?_⟩
+  intro a ha
+  unfold readRaw at ha
+  split at ha
+  · next h16 =>
+    simp only at ha
+    split at ha
+    · have hsum : (arraySizes (parseHeader (bs.take 16))).sum ≤ (bs.drop 16).length := by
+        by_contra hc
+        rw [readArrays_short _ _ (by omega)] at ha
+        cases ha
+      split at ha
+      · simp only [Except.ok.injEq] at ha
+        subst ha
+        simp only [payloadLength, arraySizes, List.sum_cons, List.sum_nil, List.length_drop, posBytes] at hsum ⊢
+        constructor
+        · omega
+        · have : (parseHeader (bs.take 16)).numPoints * (5 + shDim (parseHeader (bs.take 16)).shDegree) ≤
+              (parseHeader (bs.take 16)).numPoints * (if (parseHeader (bs.take 16)).version = 1 then 6 else 9) +
+              ((parseHeader (bs.take 16)).numPoints + ((parseHeader (bs.take 16)).numPoints * 3 +
+              ((parseHeader (bs.take 16)).numPoints * 3 + ((parseHeader (bs.take 16)).numPoints * 3 +
+              ((parseHeader (bs.take 16)).numPoints * 3 * shDim (parseHeader (bs.take 16)).shDegree + 0))))) := by
+            generalize (parseHeader (bs.take 16)).numPoints = n
+            generalize shDim (parseHeader (bs.take 16)).shDegree = d
+            split <;> nlinarith [Nat.zero_le (n * d)]
+          omega
+      · cases ha
+    · cases ha
+  · cases ha
+
+theorem reader_steps_linear_ply_binary (h : Hdr) (be : Bool) (body : List UInt8) :
+    (readPlyBinBodyI h be body).1 = readPlyBinBody h be body ∧
+    (1 ≤ h.vsize → (readPlyBinBodyI h be body).2 ≤ 3 * body.length + 3) :=
+  ⟨readPlyBinBodyI_fst h be body, readPlyBinBodyI_bound h be body⟩
+
+theorem reader_steps_linear_ply_ascii (L : Lex) (h : Hdr) (body : List UInt8) :
+    (readPlyAsciiBytesI L h body).1 = readPlyAsciiBody L h (scanLines body) ∧
+    (readPlyAsciiBytesI L h body).2 ≤ 9 * body.length + 9 :=
+  ⟨readPlyAsciiBytesI_fst L h body, readPlyAsciiBytesI_bound L h body⟩
+
+theorem reader_steps_linear_pts (L : Lex) (bs : List UInt8) :
+    (readPtsI L bs).1 = readPts L bs ∧ (readPtsI L bs).2 ≤ 4 * bs.length + 4 :=
+  ⟨readPtsI_fst L bs, readPtsI_bound L bs⟩
 
 /-- the scanner delivers at most one line per byte (plus a final unterminated one) -/
 theorem scanLines_length (bs : List UInt8) : (scanLines bs).length ≤ bs.length + 1 := by
